@@ -2,8 +2,10 @@ package main
 
 import (
 	"fmt"
+	"gopkg.in/yaml.v3"
 	"math/rand"
 	"os"
+	"regexp"
 	"strings"
 
 	"verif/harness/internal/run"
@@ -165,7 +167,11 @@ func init() {
 		Key: func(r Rec) string { return fmt.Sprint(r["cmd"], r["note"], r["nonsense"], r["channel"]) },
 		Gen: func(c *Ctx) []Case {
 			cases := []Case{{"kind": "matrixlist"}}
-			for i := range matrixCells() {
+			voc := crdVocabulary(c)
+			for i, ce := range matrixCells() {
+				if voc.knows(ce) {
+					continue // what is nonsense depends on what crd knows: a key, dynamic or symbol crd itself lists is not "unknown"
+				}
 				cases = append(cases, Case{"kind": "cell", "i": i})
 			}
 			rng := rand.New(rand.NewSource(c.Seed))
@@ -334,4 +340,64 @@ func init() {
 			return []Rec{runRec(r, strings.Join(cmd, " "), "", "", cs(k, "note"), 0)}
 		},
 	})
+}
+
+// vocabulary: the keys, dynamics and chord names / symbols the binary under test itself lists. "A key crd has no scale
+// for", "an unknown dynamic", "an unknown chord symbol" are relative to it: a crd that learns Abm or fff is not wrong.
+type vocabulary struct{ keys, dynamics, chords map[string]bool }
+
+var (
+	reCellKey = regexp.MustCompile(`(?:key=|key: "?|--key[ =])([^}",\n]*)`)
+	reCellVel = regexp.MustCompile(`(?:vel=|velocity: "?|--velocity[ =])([^}",\n]*)`)
+	reCellSym = regexp.MustCompile(`(?:_|name: "?)([A-Za-z0-9#+-]+)`)
+)
+
+func crdVocabulary(c *Ctx) vocabulary {
+	v := vocabulary{map[string]bool{}, map[string]bool{}, map[string]bool{}}
+	var scales []yScale
+	if r := c.crd([]string{"info", "key", "list"}, nil); yaml.Unmarshal(r.Stdout, &scales) == nil {
+		for _, s := range scales {
+			v.keys[s.Key] = true
+		}
+	}
+	if r := c.crd([]string{"write", "--help"}, nil); true {
+		if m := regexp.MustCompile(`override velocity: ([a-z,]+)`).FindSubmatch(append(r.Stdout, r.Stderr...)); m != nil {
+			for _, d := range strings.Split(string(m[1]), ",") {
+				v.dynamics[d] = true
+			}
+		}
+	}
+	if list, ok := builtinChordList(c); ok {
+		for _, b := range list {
+			v.chords[b.Name], v.chords[b.Meta.Display] = true, true
+		}
+	}
+	return v
+}
+
+func (v vocabulary) knows(ce cell) bool {
+	text := ce.stdin + " " + strings.Join(ce.extra, " ")
+	switch ce.nonsense {
+	case "key without scale", "malformed key":
+		for _, m := range reCellKey.FindAllStringSubmatch(text, -1) {
+			if v.keys[strings.TrimSpace(m[1])] {
+				return true
+			}
+		}
+	case "unknown dynamic":
+		for _, m := range reCellVel.FindAllStringSubmatch(text, -1) {
+			if v.dynamics[strings.TrimSpace(m[1])] {
+				return true
+			}
+		}
+	case "unknown chord symbol":
+		for _, m := range reCellSym.FindAllStringSubmatch(text, -1) {
+			if m[1] == "zork" || m[1] == "m8" || m[1] == "M" {
+				if v.chords[m[1]] {
+					return true
+				}
+			}
+		}
+	}
+	return false
 }
